@@ -188,7 +188,7 @@ def c10(tier):
         for kind in ("reject", "dup", "open"):
             for ctext, msg in sp[kind][:10]:
                 cfg = e1.cfg_from_text(ctext)
-                src = "use enum_tools::EnumTools;\n#[derive(Clone, Copy, EnumTools)]\n#[enum_tools(%s)]\n%s\n" % (cfg.attr_lines()[0], arch)
+                src = "use enum_tools::EnumTools;\n#[derive(Clone, Copy, EnumTools)]\n#[enum_tools(%s)]\n%s\n" % (cfg.attr_text(), arch)
                 v = e2.compile_one(src)
                 res.validated += 1
                 if not v.ok:
@@ -200,7 +200,7 @@ def c10(tier):
         reps = cover(sp, ("local",))
         for ctext in sorted(reps):
             cfg = e1.cfg_from_text(ctext)
-            src = "use enum_tools::EnumTools;\n#[derive(Clone, Copy, EnumTools)]\n#[enum_tools(%s)]\n%s\n" % (cfg.attr_lines()[0], arch)
+            src = "use enum_tools::EnumTools;\n#[derive(Clone, Copy, EnumTools)]\n#[enum_tools(%s)]\n%s\n" % (cfg.attr_text(), arch)
             cases.append(("local-context", k, cfg, src))
     res.extra["local_context_configs"] = len(cases)
     # T1 bounded, real toolchain only: documented catalogue incl. iter(mode = "match"), names/vis parameters
@@ -323,7 +323,7 @@ def c10(tier):
             n = len(cfg.feats)
             if n < 2:
                 continue
-            single = cfg.attr_lines()[0]
+            single = cfg.attr_text()
             base_idx = len(decl_texts)
             decl_texts.append("#[enum_tools(%s)] %s" % (single, arch))
             parts = set()
@@ -340,7 +340,7 @@ def c10(tier):
         full = catalogue.full_config(g, {})
         n = len(full.feats)
         base_idx = len(decl_texts)
-        decl_texts.append("#[enum_tools(%s)] %s" % (full.attr_lines()[0], arch))
+        decl_texts.append("#[enum_tools(%s)] %s" % (full.attr_text(), arch))
         step = 1 if tier == "thorough" else 64
         for mask in range(1, (1 << (n - 1)), step):
             a = [i for i in range(n) if mask >> i & 1]
